@@ -79,3 +79,30 @@ Proof.
   exact (accepted_values preset opts chunks final m Hob Hr i v Hi Hs).
 Qed.
 Print Assumptions C02_accepted_message_values_partial.
+
+(* partial, all 60 tags, no side condition: every element of every tag of an accepted message is a trimmed
+   value, the cut of a trimmed over-width value, a contiguous slice of the segment it was read from, or
+   parseAlphaField of a tail of that segment; so an accepted message holds nothing the text did not hold *)
+Theorem C02_parsed_tag_value_shapes_partial : forall d rec v,
+  parse_tag d rec = POk v -> Forall (val_shape rec) (tv_elems v).
+Proof. exact parse_tag_shapes. Qed.
+Print Assumptions C02_parsed_tag_value_shapes_partial.
+
+Theorem C02_accepted_message_value_shapes_partial : forall preset opts chunks final m i v,
+  read_model preset opts chunks final = ROk m -> nth i (m_tags m) None = Some v ->
+  exists line, parse_tag (nth i tags tag_Amount) line = POk v /\ Forall (val_shape line) (tv_elems v).
+Proof.
+  intros preset opts chunks final m i v Hr Hi.
+  assert (Hob : ob_dispatch_arms = true) by (vm_compute; reflexivity).
+  exact (accepted_shapes preset opts chunks final m Hob Hr i v Hi).
+Qed.
+Print Assumptions C02_accepted_message_value_shapes_partial.
+
+(* non-vacuity: a tag outside trimming_tags parses, and its raw element is a slice of the segment *)
+Example raw_amount_is_a_slice :
+  existsb (fun d => negb (forallb step_trims (t_parse d))) [tag_Amount] = true /\
+  match parse_tag tag_Amount (bs "{2000}000001234567") with
+  | POk v => tv_elems v = [bs "000001234567"] /\ slice (bs "{2000}000001234567") 6 18 = Some (bs "000001234567")
+  | _ => False
+  end.
+Proof. vm_compute. split; [reflexivity|split; reflexivity]. Qed.
